@@ -82,7 +82,7 @@ def jobs_schema(tier):
                     continue  # quick: a sixth of the two-row templates
                 if not q and nr == 3 and (kinds[0] + 2 * kinds[1] + 3 * kinds[2] + sum(depths)) % 11 != 0:
                     continue
-                p = {"rows": nr, "alpha": 1}
+                p = {"rows": nr, "alpha": 1, "first": (sum(kinds) + sum(depths)) % 4 if nr < 3 else 0}
                 for r in range(nr):
                     p["r%dd" % r] = depths[r]
                     p["r%dk" % r] = kinds[r]
